@@ -569,6 +569,12 @@ def upper_bound(fn, op, depth=12):
                     src = INT_MAX.get(sk)
                 if src is not None and sk and sk.startswith("u"):
                     ub = src
+        elif len(p) == 2 and p[1] == "f:0" and k == "binop" and rv["op"] == "SubWithOverflow" and const_int(rv["b"]) is not None:
+            # checked subtraction of a constant: the result exists only if it did not wrap
+            a = upper_bound(fn, rv["a"], depth - 1)
+            if a is not None and a >= const_int(rv["b"]):
+                ub = a - const_int(rv["b"])
+            best = None
         elif len(p) == 2 and p[1] == "f:0" and k == "binop" and rv["op"] in ("AddWithOverflow", "MulWithOverflow"):
             a = upper_bound(fn, rv["a"], depth - 1)
             b = upper_bound(fn, rv["b"], depth - 1)
